@@ -20,6 +20,12 @@
 //! `serve` / `serve_with_graceful_drain` by address, and the co-hosting accept
 //! helpers followed by their `serve_connection*` (all in `c15_tcp.rs`).
 //!
+//! Registry traffic from OUTSIDE the connection (`c15_ext.rs`): the harness as embedder calls the
+//! public `PeerRegistry` / `PeerHandle` API (broadcasts, targeted sends through `get` / `get_by`,
+//! lookups) against healthy connections in every phase, against connections whose writer died of a
+//! one-directional write fault while their reader is still serving (`WriteCut`), and against two
+//! such connections sharing the registry; the registry is sampled after each call (`Ev::Ext`).
+//!
 //! Every wait is for a predicted positive event (a log entry, a frame, a task
 //! completion) under a watchdog; nothing is synchronised by sleeping.
 //!
@@ -32,6 +38,9 @@
 //!  * `PeerRegistry::get` / `get_by(alias)` find the peer inside every handler
 //!    that runs before the disconnect hooks, and no longer after the serving
 //!    future finished nor inside a handler that outlived the connection;
+//!  * the same lookups (and `aliases_for`) made by the embedder right after each of its own calls
+//!    find the peer and its alias as long as no disconnect hook of that connection has been logged
+//!    (what the calls return -- Ok / Full / Disconnected -- is recorded, not judged);
 //!  * on the wire the two notifies queued by a connect hook precede the first
 //!    response (the first request is pipelined with the upgrade);
 //!  * an off-reader handler still parked when the connection ended reads
@@ -42,13 +51,15 @@ use crate::ctx::{Ctx, Samples, Tier};
 use crate::par;
 use crate::wsh::{Gate, Got};
 use repe::websocket_server::{HandshakeContext, WebSocketServer};
-use repe::{ConnectionError, NotifyBody, PeerId, PeerRegistry, Router};
+use repe::{ConnectionError, NotifyBody, PeerHandle, PeerId, PeerRegistry, Router};
 use serde_json::{Value, json};
 use std::collections::BTreeMap;
 use std::sync::atomic::{AtomicBool, AtomicU64, Ordering};
 use std::sync::{Arc, Condvar, Mutex};
 use std::time::{Duration, Instant};
 
+#[path = "c15_ext.rs"]
+mod ext;
 #[path = "c15_mem.rs"]
 mod mem;
 #[path = "c15_pre.rs"]
@@ -230,6 +241,17 @@ pub(crate) enum Ev {
     LoopReturned,
     ShutdownResolved,
     GateTimeout { conn: usize },
+    // ---- rows of c15_ext.rs (registry traffic from outside the connection)
+    /// harness: from here on every write of the server on this connection fails
+    /// (its reads stay open and silent)
+    WriteCut { conn: usize },
+    /// harness: the connection's outbound sink reports closed (`PeerHandle::is_connected()
+    /// == false` on a handle kept from the first connect hook): its writer task is gone
+    WriterDead { conn: usize },
+    /// harness, embedder side: one public `PeerRegistry` / `PeerHandle` call (`op`, with its
+    /// result for this connection's peer in `res`) followed by a registry sample for this
+    /// connection: `get(id)`, `get_by(alias)`, `aliases_for(id)` lists the alias
+    Ext { conn: usize, op: &'static str, stage: &'static str, res: String, present: bool, alias: bool, listed: bool },
 }
 
 impl Ev {
@@ -251,6 +273,9 @@ impl Ev {
             | Ev::Served { conn, .. }
             | Ev::Gone { conn }
             | Ev::After { conn, .. }
+            | Ev::WriteCut { conn }
+            | Ev::WriterDead { conn }
+            | Ev::Ext { conn, .. }
             | Ev::GateTimeout { conn } => *conn,
             Ev::Error { .. } | Ev::LoopReturned | Ev::ShutdownResolved => NOCONN,
         }
@@ -295,6 +320,10 @@ pub(crate) struct World {
     pub reg: PeerRegistry,
     bind: Mutex<Bind>,
     pub plans: Vec<Plan>,
+    /// rows of c15_ext.rs: the first connect hook keeps a clone of the connection's
+    /// `PeerHandle` here (the harness watches `is_connected()` on it)
+    keep_handles: bool,
+    handles: Mutex<BTreeMap<usize, PeerHandle>>,
 }
 
 impl World {
@@ -305,7 +334,21 @@ impl World {
             reg: PeerRegistry::new(),
             bind: Mutex::new(Bind::default()),
             plans,
+            keep_handles: false,
+            handles: Mutex::new(BTreeMap::new()),
         })
+    }
+    /// The same, and the first connect hook hands a clone of every `PeerHandle` to the harness.
+    pub(crate) fn new_keeping_handles(plans: Vec<Plan>) -> Arc<World> {
+        let mut w = World::new(plans);
+        Arc::get_mut(&mut w).expect("fresh").keep_handles = true;
+        w
+    }
+    pub(crate) fn handle_of(&self, conn: usize) -> Option<PeerHandle> {
+        self.handles.lock().unwrap_or_else(|p| p.into_inner()).get(&conn).cloned()
+    }
+    pub(crate) fn forget_handles(&self) {
+        self.handles.lock().unwrap_or_else(|p| p.into_inner()).clear();
     }
     pub(crate) fn push(&self, e: Ev) {
         let mut g = self.log.lock().unwrap_or_else(|p| p.into_inner());
@@ -364,7 +407,7 @@ impl World {
         let b = self.bind.lock().unwrap_or_else(|p| p.into_inner());
         b.peers.iter().find(|(_, c)| **c == conn).map(|(p, _)| PeerId(*p))
     }
-    fn sample(&self, conn: usize, id: PeerId) -> (bool, bool) {
+    pub(crate) fn sample(&self, conn: usize, id: PeerId) -> (bool, bool) {
         let present = self.reg.get(id).is_some_and(|h| h.peer_id() == id);
         let alias = match self.plans.get(conn) {
             Some(p) => self.reg.get_by(p.alias.as_str()).is_some_and(|h| h.peer_id() == id),
@@ -474,6 +517,9 @@ pub(crate) fn build_server(w: &Arc<World>) -> WebSocketServer {
                 let id = peer.peer_id();
                 let conn = w.conn_of(id);
                 let (present, _) = w.sample(conn, id);
+                if w.keep_handles {
+                    w.handles.lock().unwrap_or_else(|p| p.into_inner()).insert(conn, peer.clone());
+                }
                 w.push(Ev::C1 { conn, present });
                 if w.plans.get(conn).is_some_and(|p| p.cause == Cause::ConnPanic1) {
                     panic!("C15: first connect hook panics");
@@ -624,9 +670,38 @@ pub(crate) struct Counters {
     pub served_after_loop_returned: u64,
     pub accept_helper_returned_ok: u64,
     pub accept_helper_returned_err: u64,
+    // ---- rows of c15_ext.rs (registry traffic from outside the connection, one-directional write fault)
+    pub ext_scenarios: u64,
+    /// "family:phase:trigger:end" -> connections
+    pub ext_rows: BTreeMap<String, u64>,
+    /// public call -> executions
+    pub ext_ops: BTreeMap<String, u64>,
+    /// "stage:call:result class" -> executions
+    pub ext_results: BTreeMap<String, u64>,
+    /// stage -> registry samples taken after an external call and logged before the first disconnect hook (judged)
+    pub ext_samples_by_stage: BTreeMap<String, u64>,
+    /// of which the alias was expected (a handshake hook had attached it before)
+    pub ext_alias_samples: u64,
+    /// samples logged after a disconnect hook of the same connection (not judged)
+    pub ext_samples_unjudged: u64,
+    pub ext_write_cuts: u64,
+    pub ext_writer_deaths_observed: u64,
+    /// connections still served (no disconnect hook logged) when their writer was seen dead
+    pub ext_served_with_dead_writer: u64,
+    pub ext_sends_disconnected: u64,
+    pub ext_sends_full: u64,
+    pub ext_sends_ok: u64,
+    pub ext_fill_sends: u64,
+    pub ext_notifies_on_wire: u64,
+    /// external calls made while the connection's own thread was parked in a callback
+    pub ext_calls_while_callback_parked: u64,
+    pub ext_two_connection_scenarios: u64,
+    pub ext_second_accepted_after_cut: u64,
+    pub ext_samples_after_other_peer_ended: u64,
+    pub ext_ended_by_request_to_dead_writer: u64,
 }
 
-fn bump(m: &mut BTreeMap<String, u64>, k: impl Into<String>) {
+pub(crate) fn bump(m: &mut BTreeMap<String, u64>, k: impl Into<String>) {
     *m.entry(k.into()).or_insert(0) += 1;
 }
 
@@ -684,6 +759,26 @@ impl Counters {
         self.served_after_loop_returned += o.served_after_loop_returned;
         self.accept_helper_returned_ok += o.accept_helper_returned_ok;
         self.accept_helper_returned_err += o.accept_helper_returned_err;
+        self.ext_scenarios += o.ext_scenarios;
+        mm(&mut self.ext_rows, &o.ext_rows);
+        mm(&mut self.ext_ops, &o.ext_ops);
+        mm(&mut self.ext_results, &o.ext_results);
+        mm(&mut self.ext_samples_by_stage, &o.ext_samples_by_stage);
+        self.ext_alias_samples += o.ext_alias_samples;
+        self.ext_samples_unjudged += o.ext_samples_unjudged;
+        self.ext_write_cuts += o.ext_write_cuts;
+        self.ext_writer_deaths_observed += o.ext_writer_deaths_observed;
+        self.ext_served_with_dead_writer += o.ext_served_with_dead_writer;
+        self.ext_sends_disconnected += o.ext_sends_disconnected;
+        self.ext_sends_full += o.ext_sends_full;
+        self.ext_sends_ok += o.ext_sends_ok;
+        self.ext_fill_sends += o.ext_fill_sends;
+        self.ext_notifies_on_wire += o.ext_notifies_on_wire;
+        self.ext_calls_while_callback_parked += o.ext_calls_while_callback_parked;
+        self.ext_two_connection_scenarios += o.ext_two_connection_scenarios;
+        self.ext_second_accepted_after_cut += o.ext_second_accepted_after_cut;
+        self.ext_samples_after_other_peer_ended += o.ext_samples_after_other_peer_ended;
+        self.ext_ended_by_request_to_dead_writer += o.ext_ended_by_request_to_dead_writer;
     }
 }
 
@@ -720,6 +815,9 @@ fn short(e: &Ev) -> &'static str {
         Ev::LoopReturned => "loop-ret",
         Ev::ShutdownResolved => "shutdown",
         Ev::GateTimeout { .. } => "GATE-TIMEOUT",
+        Ev::WriteCut { .. } => "|write-cut|",
+        Ev::WriterDead { .. } => "|writer-dead|",
+        Ev::Ext { op, .. } => op,
     }
 }
 
@@ -807,6 +905,47 @@ pub(crate) fn evaluate(w: &World, facts: &[ConnFacts], shared_end: bool, out: &m
                     }
                     if f.has_handshake && !*alias {
                         fail("C15:alias-absent-from-registry-while-connected".into(), format!("PeerRegistry::get_by(alias) returned None inside a handler of a live connection ({})", short(e)));
+                    }
+                }
+                // ---- rows of c15_ext.rs: sampled by the harness (embedder side) right after a public
+                //      registry call, while no disconnect hook of this connection has been logged: "the
+                //      peer and its aliases are present from connect until [the disconnect callbacks ran]"
+                Ev::Ext { op, stage, present, alias, listed, .. } if *i < first_d => {
+                    let inserted = evs.iter().any(|(j, e)| j < i && matches!(e, Ev::C2 { .. }));
+                    let alias_attached = evs.iter().any(|(j, e)| j < i && matches!(e, Ev::H { attached: true, .. }));
+                    if inserted {
+                        bump(&mut out.counters.ext_samples_by_stage, *stage);
+                        if *stage == "other-peer-ended" {
+                            out.counters.ext_samples_after_other_peer_ended += 1;
+                        }
+                        if !*present {
+                            fail(
+                                format!("C15:peer-absent-from-registry-while-served:{stage}:after-{op}"),
+                                format!("PeerRegistry::get returned None for a connection that is still being served (no disconnect callback has run), sampled by the embedder right after {op} in stage '{stage}'"),
+                            );
+                        }
+                        if alias_attached {
+                            out.counters.ext_alias_samples += 1;
+                            if !*alias {
+                                fail(
+                                    format!("C15:alias-absent-from-registry-while-served:{stage}:after-{op}"),
+                                    format!("PeerRegistry::get_by(alias) returned None for a connection that is still being served (no disconnect callback has run), sampled by the embedder right after {op} in stage '{stage}'"),
+                                );
+                            }
+                            if !*listed {
+                                fail(
+                                    format!("C15:alias-absent-from-registry-while-served:{stage}:after-{op}:aliases_for"),
+                                    format!("PeerRegistry::aliases_for(id) no longer lists the alias of a connection that is still being served (no disconnect callback has run), sampled by the embedder right after {op} in stage '{stage}'"),
+                                );
+                            }
+                        }
+                    }
+                }
+                Ev::Ext { .. } => out.counters.ext_samples_unjudged += 1,
+                Ev::WriterDead { .. } => {
+                    out.counters.ext_writer_deaths_observed += 1;
+                    if *i < first_d {
+                        out.counters.ext_served_with_dead_writer += 1;
                     }
                 }
                 Ev::C2 { present, notify_ok, .. } => {
@@ -964,6 +1103,8 @@ pub(crate) enum Scenario {
     Tcp(tcp::TcpScenario),
     /// serving starts after the embedder's token was cancelled
     Pre(pre::PreScenario),
+    /// registry traffic from outside the connection (healthy, or with a dead writer)
+    Ext(ext::ExtScenario),
 }
 
 impl Scenario {
@@ -972,6 +1113,7 @@ impl Scenario {
             Scenario::Mem(m) => m.to_json(),
             Scenario::Tcp(t) => t.to_json(),
             Scenario::Pre(p) => p.to_json(),
+            Scenario::Ext(x) => x.to_json(),
         }
     }
     fn from_json(v: &Value) -> Result<Scenario, String> {
@@ -979,6 +1121,7 @@ impl Scenario {
             Some("mem") => Ok(Scenario::Mem(mem::MemScenario::from_json(v)?)),
             Some("tcp") => Ok(Scenario::Tcp(tcp::TcpScenario::from_json(v)?)),
             Some("pre-cancelled") => Ok(Scenario::Pre(pre::PreScenario::from_json(v)?)),
+            Some("ext") => Ok(Scenario::Ext(ext::ExtScenario::from_json(v)?)),
             _ => Err("unknown scenario kind".into()),
         }
     }
@@ -987,6 +1130,7 @@ impl Scenario {
             Scenario::Mem(m) => mem::run(m),
             Scenario::Tcp(t) => tcp::run(t),
             Scenario::Pre(p) => pre::run(p),
+            Scenario::Ext(x) => ext::run(x),
         }
     }
 }
@@ -1127,6 +1271,13 @@ fn enumerate(tier: Tier, skipped: &mut BTreeMap<String, u64>) -> Vec<Scenario> {
                 }
             }
         }
+    }
+    // (4c) registry traffic from outside the connection: healthy connections in every phase, connections
+    //     whose writer died of a one-directional write fault and that are still being served, and two
+    //     connections (one of each kind) sharing the registry (in memory; enumerated before the TCP rows so
+    //     that those still form the tail of the sweep)
+    for x in ext::enumerate(tier) {
+        v.push(Scenario::Ext(x));
     }
     // (5) the built-in accept loops over loopback TCP
     for t in tcp::enumerate(tier, skipped) {
@@ -1290,6 +1441,11 @@ pub fn run(tier: Tier) -> ! {
         if c.attempts_after_loop_returned != c.shutdown_loops_returned {
             ctx.machinery(format!("{} accept loops returned on their shutdown future but {} connection attempts were made afterwards", c.shutdown_loops_returned, c.attempts_after_loop_returned));
         }
+        for (k, n) in ext::vacuity(&c) {
+            if n == 0 {
+                ctx.machinery(format!("vacuous: {k}"));
+            }
+        }
         for outcome in ["ok", "err", "panicked", "aborted"] {
             if !c.served.keys().any(|k| k.ends_with(outcome)) {
                 ctx.machinery(format!("vacuous: no serving future ended as '{outcome}'"));
@@ -1328,15 +1484,16 @@ pub fn run(tier: Tier) -> ! {
         "events_logged": c.events,
         "exhaustive": !stopped && executed == scenarios.len() as u64,
         "stopped_early_after_violations": stopped,
-        "rule": "every exit cause x connection phase cell on each of the four in-memory entry points (1 connection), every ordered pair of cells (2 connections, both ending orders), triples (quick: every triple of causes with phases from a fixed covering rule; thorough: every triple of cells), N same-cell connections under one shared ShutdownToken, plus the built-in accept loops over loopback TCP (handshake failures x good connections, graceful drain with generous / zero / short deadline x phases x 1..3 connections); the same cells adopted through adopt_upgraded_partially_read with the first k bytes of the client's pipelined frames (k = 0, 1, 2, the whole first frame, the first frame and half of the second) handed over as `buffered` and the rest left on the stream; serve_listener_with_shutdown / serve_with_shutdown(addr) whose shutdown future resolves while 1..3 accepted connections are in their phases (the loop returns, one more connection attempt is made, connections with a free reader answer one more request, then every connection is ended by its own cause while the server runtime is kept alive by a second stop signal); serve(addr) and serve_with_graceful_drain(addr) as their listener twins on a port reserved by bind(0)+drop; the six co-hosting accept helpers inside a harness-owned accept loop, each followed by its serve_connection* call, for good handshakes (own-cause cells incl. the embedder's cancel and abort) and every failing handshake kind; each scenario is executed on the real server and decided against the event-log model",
+        "rule": format!("every exit cause x connection phase cell on each of the four in-memory entry points (1 connection), every ordered pair of cells (2 connections, both ending orders), triples (quick: every triple of causes with phases from a fixed covering rule; thorough: every triple of cells), N same-cell connections under one shared ShutdownToken, plus the built-in accept loops over loopback TCP (handshake failures x good connections, graceful drain with generous / zero / short deadline x phases x 1..3 connections); the same cells adopted through adopt_upgraded_partially_read with the first k bytes of the client's pipelined frames (k = 0, 1, 2, the whole first frame, the first frame and half of the second) handed over as `buffered` and the rest left on the stream; serve_listener_with_shutdown / serve_with_shutdown(addr) whose shutdown future resolves while 1..3 accepted connections are in their phases (the loop returns, one more connection attempt is made, connections with a free reader answer one more request, then every connection is ended by its own cause while the server runtime is kept alive by a second stop signal); serve(addr) and serve_with_graceful_drain(addr) as their listener twins on a port reserved by bind(0)+drop; the six co-hosting accept helpers inside a harness-owned accept loop, each followed by its serve_connection* call, for good handshakes (own-cause cells incl. the embedder's cancel and abort) and every failing handshake kind; {}; each scenario is executed on the real server and decided against the event-log model", ext::RULE),
         "alphabet": {
             "causes": CAUSES.iter().map(name).collect::<Vec<_>>(),
             "phases": PHASES.iter().map(name).collect::<Vec<_>>(),
             "entry_points": ["adopt_upgraded", "adopt_upgraded_partially_read", "serve_connection", "serve_connection_with_handshake", "serve_connection_with_cancel", "serve_connection_with_cancel_and_handshake", "serve_listener (TCP)", "serve_listener_with_graceful_drain (TCP)", "serve_listener_with_shutdown (TCP)", "serve (TCP, addr)", "serve_with_shutdown (TCP, addr)", "serve_with_graceful_drain (TCP, addr)", "WebSocketServer::accept / accept_with_limits / accept_with_handshake / accept_with_handshake_and_limits (TCP)", "SharedWebSocketServer::accept / accept_with_handshake (TCP)"],
             "partially_read_prefixes": mem::PREFIXES.iter().map(name).collect::<Vec<_>>(),
             "hooks": "C1, D1, with_peer_registry, C2 (queues 2 notifies), H (alias from the handshake), D2",
+            "registry_traffic_from_outside_the_connection": ext::alphabet_json(),
         },
-        "bound": {"connections_per_scenario": tier.pick(json!([1, 2, 3, 4]), json!([1, 2, 3, 8, 32])), "tcp": tcp::bound(tier)},
+        "bound": {"connections_per_scenario": tier.pick(json!([1, 2, 3, 4]), json!([1, 2, 3, 8, 32])), "tcp": tcp::bound(tier), "registry_traffic_from_outside_the_connection": ext::bound_json(tier)},
         "cells_executed": c.cells,
         "cells_skipped_not_meaningful": skipped,
         "served_through": c.via,
@@ -1364,6 +1521,7 @@ pub fn run(tier: Tier) -> ! {
             "shutdown_future_resolved_mid_life": nv_shutdown,
             "address_taking_loops": nv_addr,
             "accept_helpers": nv_accept,
+            "registry_traffic_from_outside_the_connection": ext::nonvacuity_json(&c),
         },
         "most_common_event_shapes": shapes.iter().take(8).map(|(k, n)| json!({"shape": k, "connections": n})).collect::<Vec<_>>(),
         "sweep_wall_s": (wall * 1000.0).round() / 1000.0,
@@ -1381,6 +1539,7 @@ pub fn run(tier: Tier) -> ! {
             "an abort that lands while the serving future is idle in its reader select is reachable only for an embedder that aborts its own serve_connection task; that row is decided in memory (cause Abort) and in the harness-owned accept loop of the accept-helper rows",
             "partially-read rows: the split point is computed from the byte offsets after each pipelined client frame; while the connect hook is parked the pipelined frames are WebSocket Pings (no handler runs, so no handler races the exit cause)",
             "the rows added for serve_listener_with_shutdown, the address-taking loops and the accept helpers listen on a loopback address of their own (127.x.y.z per scenario); the connection attempt after a loop returned is a complete valid upgrade request; a listener that still answered it would be reported as harness trouble, its hooks are judged only by 'never for a connection whose handshake failed'",
+            "rows with registry traffic from outside the connection: the embedder's calls are made from the harness thread at moments at which the connection's own tasks are quiescent or parked (after a predicted event: a handler parked on its gate, the writer's sink reported closed), never concurrently with a step of the connection; interleavings of registry calls with the connection's own insert/remove are the loom part's. A connection whose writes fail is considered 'being ended' from the moment of the fault (a server may tear it down on its own); the presence clause is judged on samples logged before its first disconnect hook, whenever that runs",
             "address-taking rows: the port is reserved by bind(0)+drop; the server is awaited by a connect-retry probe whose early close our server reports through on_error; a bind failure makes the server thread reserve and announce another port (never a verdict)",
         ],
     )
@@ -1395,7 +1554,7 @@ pub fn replay(case: &Value) -> Result<(), String> {
     for s in &o.shapes {
         println!("  {s}");
     }
-    println!("  counters: {}", json!({"drain_aborted_stragglers": o.counters.drain_aborted_stragglers, "off_parked_at_exit": o.counters.off_parked_at_exit, "queue_nonempty": o.counters.queue_nonempty_at_exit, "undelivered_at_abort": o.counters.undelivered_at_abort, "wire_order_checked": o.counters.wire_order_checked + o.counters.tcp_wire_order_checked}));
+    println!("  counters: {}", json!({"drain_aborted_stragglers": o.counters.drain_aborted_stragglers, "off_parked_at_exit": o.counters.off_parked_at_exit, "queue_nonempty": o.counters.queue_nonempty_at_exit, "undelivered_at_abort": o.counters.undelivered_at_abort, "wire_order_checked": o.counters.wire_order_checked + o.counters.tcp_wire_order_checked, "ext_samples_judged_by_stage": o.counters.ext_samples_by_stage, "ext_results": o.counters.ext_results}));
     if !o.stuck.is_empty() {
         println!("  harness trouble: {:?}", o.stuck);
     }
